@@ -42,7 +42,7 @@ RULE = ("each run draws a history of 0-6 store operations followed by a target o
         "tick and fault kind); distinct = distinct (operation, tick, fault kind, outcome, statement)"
         "; non-trivial = executions in which a fault actually fired")
 PROBES = ["crash_fired", "error_fired", "replace_import", "merge_import", "defective_import",
-          "duplicate_host_import", "conflict_callback_raises", "conflict_callback_interrupted", "round_trip", "weird_hostname", "via_cli", "lookalike_family", "big_import_crash_case",
+          "duplicate_host_import", "conflict_callback_raises", "object_answers_checked", "export_with_concurrent_verify", "conflict_callback_interrupted", "round_trip", "weird_hostname", "via_cli", "lookalike_family", "big_import_crash_case",
           "crash_between_statement_and_commit"]
 COMPONENTS = {
     "real": ["nauyaca.security.tofu.TOFUDatabase", "sqlite3 on a real file (rollback journal, hot-"
@@ -407,8 +407,34 @@ def run_one(ch):
     if target["kind"] == "roundtrip":
         SEAM.enabled = False
         exp = pathlib.Path(scratch, "export.toml")
+        if ch.chance("rt_big_concurrent", 0.08):
+            # a store of > 1000 hosts, and ANOTHER process verifying one of them (which stamps
+            # its last_seen) at a statement boundary in the middle of the export
+            import tomli_w
+            nbig = ch.pick("rt_n", [700, 1200])
+            fp0 = fx.fp(CERTS[0])
+            hosts = {f"bulk{i:04d}.example:1965": {
+                "hostname": f"bulk{i:04d}.example", "port": 1965, "fingerprint": fp0,
+                "first_seen": "2023-01-01T00:00:00+00:00",
+                "last_seen": f"2024-01-{1 + i % 28:02d}T00:00:{i % 60:02d}+00:00"} for i in range(nbig)}
+            bf = pathlib.Path(scratch, "bulk.toml")
+            bf.write_bytes(tomli_w.dumps({"hosts": hosts}).encode())
+            db.import_toml(bf, merge=True)
+            before_full = table(base_db)
+            victim = f"bulk{ch.choose('rt_victim', nbig):04d}.example"
+            other = TOFUDatabase(pathlib.Path(base_db))
+            SEAM.reset(None)
+            SEAM.enabled = True
+            SEAM.fault_at = 1 + ch.choose("rt_tick", 8)
+            SEAM.fault_kind = "call"
+            SEAM.hook = lambda: other.verify(victim, 1965, load_cert(CERTS[0]))
+            hist.append(f"store grown to {len(before_full)} hosts; another process verifies {victim} "
+                        f"at statement {SEAM.fault_at} of the export")
+            res.stats["export_with_concurrent_verify"] += 1
         try:
             n = db.export_toml(exp)
+            SEAM.enabled = False
+            SEAM.fault_at = None
             db2 = TOFUDatabase(pathlib.Path(scratch, "fresh.db"))
             db2.import_toml(exp, merge=bool(ch.choose("rtmerge", 2)))
             got = table(os.path.join(scratch, "fresh.db"))
@@ -454,14 +480,38 @@ def run_one(ch):
         restore(work)
         SEAM.reset(None)
         SEAM.enabled = True
+        dbt = TOFUDatabase(pathlib.Path(work))
         try:
-            do_op(TOFUDatabase(pathlib.Path(work)), target, scratch, "t")
+            do_op(dbt, target, scratch, "t")
             outcome = "returned"
         except SimCrash:
             raise
         except BaseException as e:  # noqa  (KeyboardInterrupt & co. from the callback included)
             outcome = "raised:" + type(e).__name__
         SEAM.enabled = False
+        if not target.get("cli"):
+            # the object that ran the operation answers from the store as it now is - not
+            # from anything it remembers of an operation that failed (or of the one before)
+            now_tbl = triples(table(work))
+            probe_keys = list(now_tbl)[:3] + [(e["hostname"], e["port"]) for e in target.get("entries", [])
+                                               if isinstance(e.get("hostname"), str)
+                                               and isinstance(e.get("port"), int)][:4]
+            pc = CERTS[0]
+            for hk in probe_keys:
+                pin = now_tbl.get(hk)
+                want = (True, "first_use") if pin is None else \
+                    ((True, "") if pin == fx.fp(pc) else (False, "changed"))
+                try:
+                    ans = dbt.verify(hk[0], hk[1], load_cert(pc))
+                except Exception as e:  # noqa
+                    ans = ("raised", type(e).__name__)
+                if ans[0] != want[0] or (want[1] in ("first_use", "changed") and ans[1] != want[1]):
+                    res.violate(f"C12/object-answers-differ-from-store/{_opkey(target)}",
+                                f"after the operation ({outcome}) verify() on the same object says "
+                                f"{ans!r} for {hk!r}, the store on disk says pin={str(pin)[:24]!r} "
+                                f"(expected {want!r})", history=hist)
+                    break
+            res.stats["object_answers_checked"] += 1
         # TOFUDatabase() itself runs CREATE TABLE + commit: those ticks belong to opening
         nticks = SEAM.tick
         ticklog = list(SEAM.log)
